@@ -198,9 +198,17 @@ def msg_doc(kind, message_id, ro_id='RO', *, story_ref=ABSENT, target=ABSENT, id
             m.append(s)
     elif kind == 'roStorySend':
         m = E('roStorySend')
+        placed = False
+        if fields and fields[0] == 'BODY0':
+            # storyBody as the very first child of roStorySend
+            b = E('storyBody')
+            for c in (body or ()):
+                b.append(c)
+            m.append(b)
+            placed = True
+            fields = fields[1:]
         m.append(E('roID', ro_id))
         _ref(m, 'storyID', story_ref)
-        placed = False
         for f in fields:
             if f == 'BODY':
                 b = E('storyBody')
